@@ -1520,3 +1520,35 @@ benign_patch("refactor_s12_02", "benign/set12_02_overlap_tests_map_or.diff", not
 benign_patch("refactor_s12_03", "benign/set12_03_fragment_type_direct_comparisons.diff", note="LogWriter::append: fragment type decided by `remaining <= room` directly, chunk = min() (correct twin of seed C12-S)")
 mut("revert_D27", ["C17"], "GRD-9|<fs::fs_disk::OsFileSystem as fs::traits::FileSystem>::lock_file|locked-file-is-the-one-the-path-names", patch="revert_D27_lock_file_without_identity_check.diff",
     note="a lock granted on a LOCK file that destroy_database unlinked in the meantime excludes nobody (defect D27)")
+benign_patch("refactor_s12_04", "benign/set12_04_c05u_worker_half.diff", note="compact_memtable lowers has_immutable_memtable right after the table was written (one half of seed C05-U: harmless while no reader trusts the flag)")
+benign_patch("refactor_s12_05", "benign/set12_05_c05u_db_half.diff", note="DB::get clones the immutable memtable only when has_immutable_memtable is set (the other half of seed C05-U: harmless while the flag mirrors the slot)")
+benign_patch("refactor_s12_A_01", "benign/set12_A_01_extract_lru_eviction_helper.diff", note='extract_lru_eviction_helper (round-12 anchors, set A)')
+benign_patch("refactor_s12_A_02", "benign/set12_A_02_lru_get_match_expression.diff", note='lru_get_match_expression (round-12 anchors, set A)')
+benign_patch("refactor_s12_A_03", "benign/set12_A_03_lru_remove_if_let.diff", note='lru_remove_if_let (round-12 anchors, set A)')
+benign_patch("refactor_s12_A_04", "benign/set12_A_04_table_cache_get_explicit_match.diff", note='table_cache_get_explicit_match (round-12 anchors, set A)')
+benign_patch("refactor_s12_A_05", "benign/set12_A_05_find_table_split_miss_path.diff", note='find_table_split_miss_path (round-12 anchors, set A)')
+benign_patch("refactor_s12_A_06", "benign/set12_A_06_get_block_reader_flatten_match.diff", note='get_block_reader_flatten_match (round-12 anchors, set A)')
+benign_patch("refactor_s12_A_07", "benign/set12_A_07_block_cache_lookup_reorder.diff", note='block_cache_lookup_reorder (round-12 anchors, set A)')
+benign_patch("refactor_s12_A_08", "benign/set12_A_08_cache_block_reader_named_temporary.diff", note='cache_block_reader_named_temporary (round-12 anchors, set A)')
+benign_patch("refactor_s12_A_09", "benign/set12_A_09_block_seek_loop_break.diff", note='block_seek_loop_break (round-12 anchors, set A)')
+benign_patch("refactor_s12_A_10", "benign/set12_A_10_block_next_de_morgan.diff", note='block_next_de_morgan (round-12 anchors, set A)')
+benign_patch("refactor_s12_A_11", "benign/set12_A_11_block_prev_tail_if_else.diff", note='block_prev_tail_if_else (round-12 anchors, set A)')
+benign_patch("refactor_s12_A_12", "benign/set12_A_12_db_iter_seek_nested_else.diff", note='db_iter_seek_nested_else (round-12 anchors, set A)')
+benign_patch("refactor_s12_A_13", "benign/set12_A_13_db_iter_seek_to_first_explicit_error.diff", note='db_iter_seek_to_first_explicit_error (round-12 anchors, set A)')
+benign_patch("refactor_s12_A_14", "benign/set12_A_14_find_next_entry_swap_operands.diff", note='find_next_entry_swap_operands (round-12 anchors, set A)')
+benign_patch("refactor_s12_B_01", "benign/set12_B_01_os_lock_file_extract_open_helper.diff", note='os_lock_file_extract_open_helper (round-12 anchors, set B)')
+benign_patch("refactor_s12_B_02", "benign/set12_B_02_tmp_lock_file_single_rooted_path.diff", note='tmp_lock_file_single_rooted_path (round-12 anchors, set B)')
+benign_patch("refactor_s12_B_03", "benign/set12_B_03_ensure_lock_file_is_current_guard_to_bool.diff", note='ensure_lock_file_is_current_guard_to_bool (round-12 anchors, set B)')
+benign_patch("refactor_s12_B_04", "benign/set12_B_04_overlapping_inputs_early_continue.diff", note='overlapping_inputs_early_continue (round-12 anchors, set B)')
+benign_patch("refactor_s12_B_05", "benign/set12_B_05_recover_fold_is_some_to_if_let.diff", note='recover_fold_is_some_to_if_let (round-12 anchors, set B)')
+benign_patch("refactor_s12_B_06", "benign/set12_B_06_set_prev_sequence_number_debug_log.diff", note='set_prev_sequence_number_debug_log (round-12 anchors, set B)')
+benign_patch("refactor_s12_B_07", "benign/set12_B_07_log_and_apply_cleanup_if_let_to_match.diff", note='log_and_apply_cleanup_if_let_to_match (round-12 anchors, set B)')
+benign_patch("refactor_s12_B_08", "benign/set12_B_08_read_physical_record_extract_eof_error_helper.diff", note='read_physical_record_extract_eof_error_helper (round-12 anchors, set B)')
+benign_patch("refactor_s12_B_09", "benign/set12_B_09_log_append_fragment_type_match_on_tuple.diff", note='log_append_fragment_type_match_on_tuple (round-12 anchors, set B)')
+benign_patch("refactor_s12_B_10", "benign/set12_B_10_emit_block_question_mark_to_match.diff", note='emit_block_question_mark_to_match (round-12 anchors, set B)')
+benign_patch("refactor_s12_B_11", "benign/set12_B_11_flush_data_block_early_return_to_else.diff", note='flush_data_block_early_return_to_else (round-12 anchors, set B)')
+benign_patch("refactor_s12_B_12", "benign/set12_B_12_write_block_select_then_emit_once.diff", note='write_block_select_then_emit_once (round-12 anchors, set B)')
+benign_patch("refactor_s12_B_13", "benign/set12_B_13_file_metadata_serialiser_named_key_temporaries.diff", note='file_metadata_serialiser_named_key_temporaries (round-12 anchors, set B)')
+benign_patch("refactor_s12_B_14", "benign/set12_B_14_version_manifest_serialiser_is_some_unwrap_to_if_let.diff", note='version_manifest_serialiser_is_some_unwrap_to_if_let (round-12 anchors, set B)')
+mut("revert_D28", ["C08"], "GRD-4|compaction::worker::CompactionWorker::compact_tables", patch="revert_D28_compaction_appends_behind_a_failed_manifest_write.diff",
+    note="a table compaction keeps appending to the manifest behind a failed (torn) append of a flush that ran inside it: the database cannot be reopened (defect D28)")
